@@ -271,8 +271,24 @@ func (r *rewriter) walk(n ast.Node) {
 		r.walk(x.Chan)
 		r.walk(x.Value)
 		tk := r.fresh("t")
-		ch := r.renderNode(x.Chan)
-		r.add(r.off(x.Pos()), r.off(x.End()), fmt.Sprintf("{ %s := vrt__.BeforeSend(%s); %s <- %s; vrt__.After(%s) }", tk, ch, ch, r.renderNode(x.Value), tk))
+		// operands are evaluated once, before the send blocks (a value without a call cannot have a side effect
+		// and stays in place so that untyped constants keep their conversion to the element type)
+		cv := r.fresh("c")
+		pre := fmt.Sprintf("%s := %s; ", cv, r.renderNode(x.Chan))
+		val := r.renderNode(x.Value)
+		callInValue := false
+		ast.Inspect(x.Value, func(n ast.Node) bool {
+			if _, ok := n.(*ast.CallExpr); ok {
+				callInValue = true
+			}
+			return !callInValue
+		})
+		if callInValue {
+			vv := r.fresh("c")
+			pre += fmt.Sprintf("%s := %s; ", vv, val)
+			val = vv
+		}
+		r.add(r.off(x.Pos()), r.off(x.End()), fmt.Sprintf("{ %s%s := vrt__.BeforeSend(%s); %s <- %s; vrt__.After(%s) }", pre, tk, cv, cv, val, tk))
 		return
 	case *ast.AssignStmt:
 		if len(x.Lhs) == 2 && len(x.Rhs) == 1 {
